@@ -21,7 +21,8 @@ import extract
 PROP_RE = re.compile(r'\bC\d\d\b')
 
 KIND_PATTERNS = [
-    ('post', re.compile(r'postcondition not satisfied')),
+    ('post', re.compile(r'postcondition not satisfied|unable to prove post-?condition of closure')),
+    ('pre', re.compile(r'unable to prove pre-?condition of closure')),
     ('pre', re.compile(r'precondition not satisfied')),
     ('assert', re.compile(r'assertion failed|assertion not satisfied')),
     ('inv', re.compile(r'invariant not satisfied')),
